@@ -39,6 +39,7 @@ type Opts struct {
 	Behavioural   bool // restrict to shapes whose runtime behaviour the DI model predicts
 	TagHeavy      bool // many shared tags, priority ties, several decorators per tag
 	ScopeHeavy    bool // most services declare a scope
+	AliasHeavy    bool // many aliases over confusable paths; alias spellings preferred
 }
 
 func All() Opts {
@@ -158,6 +159,17 @@ func (g *G) spell(path string, quotedOnly bool, label string) string {
 	if len(sp) == 0 {
 		panic("no spelling for " + path)
 	}
+	if g.O.AliasHeavy && path != "" && g.chance(65, label+"-prefalias") {
+		var al []string
+		for _, x := range sp {
+			if !strings.HasPrefix(strings.Trim(x, `"`), "fx/") {
+				al = append(al, x)
+			}
+		}
+		if len(al) > 0 {
+			sp = al
+		}
+	}
 	s := sp[g.draw(len(sp), label)]
 	switch {
 	case path == "" && s == "":
@@ -218,6 +230,9 @@ func (g *G) genMeta() {
 	}
 	// packages in play
 	n := 1 + g.draw(3, "npkgs")
+	if g.O.AliasHeavy {
+		n = 3 + g.draw(3, "npkgs-heavy")
+	}
 	perm := rapid.Permutation(fx.Libs).Draw(g.T, "pkgs")
 	for i := 0; i < n && i < len(perm); i++ {
 		g.pkgs = append(g.pkgs, perm[i].Path)
@@ -225,10 +240,17 @@ func (g *G) genMeta() {
 	// aliases
 	if g.O.Aliases {
 		na := g.draw(4, "naliases")
+		if g.O.AliasHeavy {
+			na = 2 + g.draw(5, "naliases-heavy")
+		}
 		used := map[string]bool{}
 		for i := 0; i < na; i++ {
 			pool := aliasPoolPlain
-			if g.O.HostileAlias && g.chance(40, "hostile?") {
+			hostilePct := 40
+			if g.O.AliasHeavy {
+				hostilePct = 60
+			}
+			if g.O.HostileAlias && g.chance(hostilePct, "hostile?") {
 				pool = aliasPoolHostile
 				g.L.Add("alias:hostile-prefix")
 			}
